@@ -20,7 +20,7 @@ OUTSIDE = ['"started within 0.02 rad of a regular in-limit solution it succeeds"
 ASSUMPTIONS = ['np.linalg.pinv = arbitrary matrix (over-approximates every Newton step)', 'random.uniform = arbitrary value in range',
                'Log6 of the pose error is the summary of C01; |Log R| = rotation angle']
 EXPLORER_DEFAULTS = {'quick': dict(prove_timeout_ms=8000, branch_timeout_ms=1500, time_budget_s=500, max_paths=40, max_decisions=120),
-                     'thorough': dict(prove_timeout_ms=30000, branch_timeout_ms=4000, time_budget_s=3000, max_paths=300, max_decisions=200)}
+                     'thorough': dict(prove_timeout_ms=30000, branch_timeout_ms=4000, time_budget_s=1200, max_paths=300, max_decisions=200)}
 
 
 def _setup(w):
